@@ -33,7 +33,7 @@ PickRec == /\ i < 0
            /\ pc' = "posed" /\ UNCHANGED <<bs, obs, misses, j>>
 
 RecOut == Recs[i].out
-BsAgrees(b, ob) == ob = 2 \/ ob = b
+BsAgrees(b, ob) == ob = b \/ (ob = 2 /\ b \in {0, 1})
 IsPrefix(s, t) == Len(s) <= Len(t) /\ \A k \in DOMAIN s : s[k] = t[k]
 \* the machine state does not contradict the logged outcome
 Consistent == /\ obs \subseteq Observed(x, RecOut)
